@@ -476,20 +476,48 @@ def _names_in(e):
     return keys
 
 
+_COMPLEMENT = {ast.Is: ast.IsNot, ast.IsNot: ast.Is, ast.Eq: ast.NotEq, ast.NotEq: ast.Eq, ast.Lt: ast.GtE, ast.GtE: ast.Lt,
+               ast.Gt: ast.LtE, ast.LtE: ast.Gt, ast.In: ast.NotIn, ast.NotIn: ast.In}
+_MIRROR = {ast.Lt: ast.Gt, ast.Gt: ast.Lt, ast.LtE: ast.GtE, ast.GtE: ast.LtE, ast.Eq: ast.Eq, ast.NotEq: ast.NotEq}
+
+
+def equivalents(e, truth):
+    """Other spellings of the same atomic fact: complement operator with flipped truth, mirrored operands."""
+    out = []
+    if isinstance(e, ast.Compare) and len(e.ops) == 1:
+        op = type(e.ops[0])
+        l, r = e.left, e.comparators[0]
+        if op in _COMPLEMENT:
+            out.append((ast.Compare(left=l, ops=[_COMPLEMENT[op]()], comparators=[r]), not truth))
+        if op in _MIRROR:
+            out.append((ast.Compare(left=r, ops=[_MIRROR[op]()], comparators=[l]), truth))
+            if op in _COMPLEMENT and _COMPLEMENT[op] in _MIRROR:
+                out.append((ast.Compare(left=r, ops=[_MIRROR[_COMPLEMENT[op]]()], comparators=[l]), not truth))
+    return out
+
+
 def decompose(cond, truth):
     """Atomic facts implied by `cond` evaluating to `truth`: list of (expr_node, bool)."""
+    base = _decompose(cond, truth)
+    extra = []
+    for e, t in base:
+        extra += equivalents(e, t)
+    return base + extra
+
+
+def _decompose(cond, truth):
     if isinstance(cond, ast.UnaryOp) and isinstance(cond.op, ast.Not):
-        return decompose(cond.operand, not truth)
+        return _decompose(cond.operand, not truth)
     if isinstance(cond, ast.BoolOp):
         if isinstance(cond.op, ast.And) and truth:
             out = []
             for v in cond.values:
-                out += decompose(v, True)
+                out += _decompose(v, True)
             return out + [(cond, True)]
         if isinstance(cond.op, ast.Or) and not truth:
             out = []
             for v in cond.values:
-                out += decompose(v, False)
+                out += _decompose(v, False)
             return out + [(cond, False)]
         return [(cond, truth)]
     if isinstance(cond, ast.Compare) and len(cond.ops) > 1 and truth:
@@ -505,9 +533,14 @@ def decompose(cond, truth):
 class Facts(object):
     """Must-hold branch facts at every node: set of (expr_src, truth)."""
 
-    def __init__(self, cfg):
+    def __init__(self, cfg, params=()):
         self.cfg = cfg
         self._deps = {}
+        self._inl = None
+        try:
+            self._inl = Inliner(cfg, params=params)
+        except Exception:
+            self._inl = None
 
         def fact(e, t):
             k = (src(e), t)
@@ -616,6 +649,13 @@ class Facts(object):
         def edge(n, lab, s, s_in):
             if n.kind == "branch" and lab in ("true", "false"):
                 add = [fact(e, t) for e, t in decompose(n.ast, lab == "true")]
+                if self._inl is not None:
+                    try:
+                        e2 = self._inl.inline(n, n.ast)
+                        if src(e2) != src(n.ast):
+                            add += [fact(e, t) for e, t in decompose(e2, lab == "true")]
+                    except Exception:
+                        pass
                 return frozenset(set(s) | set(add))
             return s
 
@@ -804,3 +844,91 @@ def decision_table(cfg, starts, atoms, stops):
                         stack.append(t)
         out[vals] = reached
     return out
+
+
+# ------------------------------------------------------ inlining of temporaries
+PURE_CALLS = {"int", "len", "abs", "min", "max", "str", "float", "bool", "tuple", "divmod", "isinstance", "callable", "getattr", "sorted", "iter", "list", "range"}
+
+
+def _pure(e):
+    for x in ast.walk(e):
+        if isinstance(x, ast.Call):
+            f = x.func
+            if isinstance(f, ast.Name) and f.id in PURE_CALLS:
+                continue
+            if isinstance(f, ast.Attribute) and f.attr in NONMUTATING_METHODS:
+                continue
+            return False
+        if isinstance(x, (ast.Yield, ast.YieldFrom, ast.Await, ast.Lambda, ast.NamedExpr, ast.ListComp, ast.GeneratorExp, ast.SetComp, ast.DictComp)):
+            return False
+    return True
+
+
+class Inliner(object):
+    """Replace local temporaries by their (single, pure) reaching definition - so that a rule sees
+    `item.step < 0` whether or not the code first wrote `step = item.step`."""
+
+    def __init__(self, cfg, params=()):
+        self.cfg = cfg
+        self.rd = ReachingDefs(cfg, params=params)
+
+    def definition(self, node, name):
+        defs = self.rd.at(node, name)
+        if len(defs) != 1:
+            return None
+        d = next(iter(defs))
+        if not d:
+            return None
+        dn = self.cfg.nodes[d]
+        a = dn.ast
+        if dn.kind != "stmt" or not isinstance(a, ast.Assign) or len(a.targets) != 1:
+            return None
+        t = a.targets[0]
+        val = None
+        if isinstance(t, ast.Name) and t.id == name:
+            val = a.value
+        elif isinstance(t, (ast.Tuple, ast.List)) and isinstance(a.value, (ast.Tuple, ast.List)) and len(t.elts) == len(a.value.elts):
+            for te, ve in zip(t.elts, a.value.elts):
+                if isinstance(te, ast.Name) and te.id == name:
+                    val = ve
+        if val is None or not _pure(val):
+            return None
+        # the definition's own inputs must not have changed between the definition and the use
+        for x in ast.walk(val):
+            if isinstance(x, ast.Name) and isinstance(x.ctx, ast.Load):
+                if self.rd.at(dn, x.id) != self.rd.at(node, x.id):
+                    return None
+            if isinstance(x, ast.Attribute) and isinstance(x.ctx, ast.Load):
+                # attribute of an object: conservatively require no store to that attribute text between def and use
+                txt = src(x)
+                for m in self.cfg.reach([dn]):
+                    if m is node:
+                        continue
+                    if m.kind == "stmt" and isinstance(m.ast, (ast.Assign, ast.AugAssign)):
+                        tg = m.ast.targets if isinstance(m.ast, ast.Assign) else [m.ast.target]
+                        if any(src(y) == txt for t_ in tg for y in ast.walk(t_) if isinstance(y, ast.Attribute)):
+                            if node in self.cfg.reach([m]) or m is node:
+                                return None
+        return (val, dn)
+
+    def inline(self, node, expr, depth=4):
+        import copy
+        if depth <= 0:
+            return expr
+        me = self
+
+        class T(ast.NodeTransformer):
+            def visit_Name(self, n):
+                if isinstance(n.ctx, ast.Load):
+                    r = me.definition(node, n.id)
+                    if r is not None:
+                        val, dn = r
+                        return me.inline(dn, copy.deepcopy(val), depth - 1)
+                return n
+
+            def visit_Lambda(self, n):
+                return n
+        return ast.fix_missing_locations(T().visit(copy.deepcopy(expr)))
+
+    def src(self, node, expr):
+        return src(self.inline(node, expr))
